@@ -121,11 +121,17 @@ Definition path_ok (k : kind) (path : str) : Prop :=
   end.
 
 (* the port part [pp] of the text and the port it denotes *)
-Definition port_shape (fx : fixes) (port : N) (pp path : str) : Prop :=
+Definition port_shape (port : N) (pp path : str) : Prop :=
   (port = 0 /\ pp = [] /\ port_free path = true)
   \/ (exists ds, pp = ds ++ [c_colon] /\ all_digits ds = true
-                 /\ parse_uint16 ds = Some port
-                 /\ (fx_port0 fx = true -> port <> 0)).
+                 /\ parse_uint16 ds = Some port).
+
+Lemma port_like_prefix_free : forall path, port_like_prefix path = negb (port_free path).
+Proof.
+  intro path. unfold port_like_prefix, port_free.
+  destruct (break_at non_digit path) as [d [|x r]]; [reflexivity|].
+  rewrite negb_involutive. reflexivity.
+Qed.
 
 Definition ssh_shape (fx : fixes) (raw : str) (k : kind) (u : url) : Prop :=
   exists user host port pp path,
@@ -135,7 +141,7 @@ Definition ssh_shape (fx : fixes) (raw : str) (k : kind) (u : url) : Prop :=
     /\ none_sat (byte_is c_colon) host = true
     /\ host <> []
     /\ (user = [] -> none_sat (byte_is c_at) host = true)
-    /\ port_shape fx port pp path
+    /\ port_shape port pp path
     /\ path_ok k path
     /\ (fx_dash fx = true -> starts_with_dash user = false /\ starts_with_dash host = false).
 
@@ -261,11 +267,11 @@ Qed.
 
 (* ---- port step ---- *)
 
-Lemma ssh_port_step_inv : forall fx raw2 port path,
-    ssh_port_step fx raw2 = inr (port, path) ->
-    exists pp, raw2 = pp ++ path /\ port_shape fx port pp path.
+Lemma ssh_port_step_inv : forall raw2 port path,
+    ssh_port_step raw2 = inr (port, path) ->
+    exists pp, raw2 = pp ++ path /\ port_shape port pp path.
 Proof.
-  intros fx raw2 port path H. unfold ssh_port_step in H.
+  intros raw2 port path H. unfold ssh_port_step in H.
   destruct (break_at non_digit raw2) as [digits rest2] eqn:E3.
   destruct (break_at_spec _ _ _ _ E3) as (R3 & N3 & T3).
   destruct rest2 as [|x after].
@@ -274,31 +280,26 @@ Proof.
   - destruct (Byte.eqb x c_colon) eqn:EC.
     + apply byte_eqb_eq in EC. subst x.
       destruct (parse_uint16 digits) as [p|] eqn:PU; [|discriminate].
-      destruct (fx_port0 fx && (p =? 0)) eqn:Z; [discriminate|].
       inversion H; subst port path.
       exists (digits ++ [c_colon]). split.
       * rewrite R3. rewrite <- app_assoc. reflexivity.
       * right. exists digits. repeat split; auto.
-        -- apply none_sat_digits. exact N3.
-        -- intros F E. rewrite F in Z. subst p. cbn in Z. discriminate.
+        apply none_sat_digits. exact N3.
     + inversion H; subst port path. exists []. split; [reflexivity|].
       left. repeat split; auto. unfold port_free. rewrite E3. rewrite EC. reflexivity.
 Qed.
 
-Lemma ssh_port_step_intro : forall fx port pp path,
-    port_shape fx port pp path -> ssh_port_step fx (pp ++ path) = inr (port, path).
+Lemma ssh_port_step_intro : forall port pp path,
+    port_shape port pp path -> ssh_port_step (pp ++ path) = inr (port, path).
 Proof.
-  intros fx port pp path [(-> & -> & PF)|(ds & -> & AD & PU & NZ)]; unfold ssh_port_step.
+  intros port pp path [(-> & -> & PF)|(ds & -> & AD & PU)]; unfold ssh_port_step.
   - cbn [app]. unfold port_free in PF.
     destruct (break_at non_digit path) as [d r] eqn:E.
     destruct r as [|x after]; [reflexivity|].
     apply negb_true_iff in PF. rewrite PF. reflexivity.
   - rewrite <- app_assoc. cbn [app].
     rewrite (break_at_app non_digit ds c_colon path (digits_none_sat _ AD) colon_non_digit).
-    rewrite byte_eqb_refl, PU.
-    destruct (fx_port0 fx) eqn:F; cbn [andb]; [|reflexivity].
-    destruct (port =? 0) eqn:Z; [|reflexivity].
-    apply N.eqb_eq in Z. exfalso. apply (NZ eq_refl Z).
+    rewrite byte_eqb_refl, PU. reflexivity.
 Qed.
 
 (* ---- the whole parser ---- *)
@@ -311,12 +312,12 @@ Proof.
   destruct (fx_dash fx && starts_with_dash user) eqn:D1; [discriminate|].
   destruct (ssh_host_step raw1) as [e|[host raw2]] eqn:HS; [discriminate|].
   destruct (fx_dash fx && starts_with_dash host) eqn:D2; [discriminate|].
-  destruct (ssh_port_step fx raw2) as [e|[port path]] eqn:PS; [discriminate|].
+  destruct (ssh_port_step raw2) as [e|[port path]] eqn:PS; [discriminate|].
   destruct (path_check k path) as [e|[]] eqn:PC; [discriminate|].
   inversion H; subst u.
   destruct (ssh_user_step_inv _ _ _ US) as (Rraw & Nuser & Hat).
   destruct (ssh_host_step_inv _ _ _ HS) as (R2 & N2 & Hh & B2).
-  destruct (ssh_port_step_inv _ _ _ _ PS) as (pp & Rp & PSH).
+  destruct (ssh_port_step_inv _ _ _ PS) as (pp & Rp & PSH).
   apply path_check_ok in PC.
   exists user, host, port, pp, path.
   split; [reflexivity|].
@@ -343,6 +344,6 @@ Proof.
   assert (D2 : fx_dash fx && starts_with_dash host = false).
   { destruct (fx_dash fx); [|reflexivity]. destruct (D eq_refl) as [_ ->]. reflexivity. }
   rewrite D2.
-  rewrite (ssh_port_step_intro fx port pp path PSH).
+  rewrite (ssh_port_step_intro port pp path PSH).
   apply path_check_ok in PK. rewrite PK. reflexivity.
 Qed.
